@@ -301,8 +301,20 @@ impl rustic_core::ReadSource for SlowSource {
     }
 }
 
+/// Watchdog budgets are stated for an idle host and stretched on a loaded one: `1 + ceil(load1 / cores)`, at most 8
+/// (a saturated machine once made the 20 s budgets fire on the unchanged tree; a real deadlock is still reported, later).
+fn load_factor() -> u64 {
+    let load = std::fs::read_to_string("/proc/loadavg")
+        .ok()
+        .and_then(|s| s.split_whitespace().next().and_then(|x| x.parse::<f64>().ok()))
+        .unwrap_or(0.0);
+    let cores = std::thread::available_parallelism().map_or(1, std::num::NonZeroUsize::get) as f64;
+    (1 + (load / cores).ceil() as u64).min(8)
+}
+
 /// Run `f` on its own thread; `None` after `secs` seconds (the thread is left behind).
 fn watchdog<T: Send + 'static>(secs: u64, f: impl FnOnce() -> T + Send + 'static) -> Option<T> {
+    let secs = secs * load_factor();
     let (tx, rx) = std::sync::mpsc::channel();
     _ = std::thread::spawn(move || {
         let r = std::panic::catch_unwind(std::panic::AssertUnwindSafe(f));
@@ -383,7 +395,7 @@ fn supervised(line: &str, budget: u64, counts: bool) -> String {
     if TIMEOUTS.load(SeqCst) >= MAX_TIMEOUTS {
         return format!("not-run:{MAX_TIMEOUTS}-earlier-cases-timed-out");
     }
-    let obs = match spawn_vh(None, budget, line) {
+    let obs = match spawn_vh(None, budget * load_factor(), line) {
         Ok(s) => s,
         Err(e) if e == "timeout" => "oracle-fail:timeout".into(),
         Err(e) => e,
